@@ -18,14 +18,14 @@ ENGINE = "E1-enumeration"
 TECHNIQUE = "bounded exhaustive enumeration of DSM configurations; round-trip and solver-agreement relations between runs of the real code"
 RULE = (
     "complete enumeration of (time grids with steps in {1,2,5}, 3-5 items; quick: 13 representatives) x (13 "
-    "lifetime parametrisations, kept when every first-interval survival share >= 0.05) x (quadratures) x (extra "
+    "lifetime parametrisations, kept when every first-interval survival share >= 1e-4 and the rounding amplification bound stays below 1e-3; the tolerance follows that bound) x (quadratures) x (extra "
     "dims: none, single-item p, p, p x q) x (scalar / per-label-and-cohort parameters) x (A: non-negative inflows "
     "incl. every unit impulse; B: prescribed stocks increasing, decreasing, hump, exact zero in a middle year, "
     "exact zeros at the end, integer dtype, each unit impulse) x (solver manual / lapack). Non-trivial = "
     "well-conditioned configuration actually computed. Distinct by construction."
 )
 ASSUMPTIONS = [
-    "tolerance 1e-9 relative (forward substitution over <= 5 steps with diagonal >= 0.05; measured residual ~2e-15)",
+    "tolerance max(1e-9, 1e-14 x product of reciprocal first-interval survival shares) relative; measured residual ~2e-15 on well-conditioned tables",
     "finite driver / parameter alphabets; grids up to 5 items",
 ]
 LEVEL_TEXT = (
@@ -46,9 +46,12 @@ def units(tier, seed):
     return c03.units(tier, seed)
 
 
+TOL_NOW = [1e-9]  # tolerance of the current case (conditioning-aware, see run_case)
+
+
 def cmp_tables(a, b, scale, what):
     for k, v in a.items():
-        if not abs(v - b[k]) <= TOL * scale:
+        if not abs(v - b[k]) <= TOL_NOW[0] * scale:
             return f"{what} differs at {k}: {v!r} vs {b[k]!r}"
     return None
 
@@ -69,19 +72,28 @@ def run_case(mode, grid, li, quad, ei, pair, drv, variant):
         return "fail", dict(case=case, tags=t, what=f"{mode} {lt[0]}{lt[1]} shapes {shapes}, grid {list(grid)} extra {extra} quad {quad} driver {drv} ({variant}): {what}")
 
     sf_m, _ = dsm.sf_table(grid, lt[0], dsm_impl.prm_fn(lt[1], shapes, extra), quad[0], quad[1], labs)
-    if any(sf_m[(c, c, lab)] is None or sf_m[(c, c, lab)] < 0.05 for c in range(n) for lab in labs):
+    if any(sf_m[(c, c, lab)] is None or sf_m[(c, c, lab)] < 1e-4 for c in range(n) for lab in labs):
+        return "skipped-ill-conditioned", None
+    # forward substitution amplifies rounding by at most the product of the reciprocal diagonal shares:
+    # the tolerance follows that bound (1e-9 for well-conditioned tables), cases beyond 1e-3 are skipped
+    growth = 1.0
+    for c in range(n):
+        growth *= 1.0 / min(sf_m[(c, c, lab)] for lab in labs)
+    TOL_NOW[0] = max(1e-9, 1e-14 * growth)
+    if TOL_NOW[0] > 1e-3:
         return "skipped-ill-conditioned", None
     d = dsm_impl.driver_series(drv, n, extra)
     int_dtype = variant == "int"
     pass_arrays = variant == "arrays"
+    past = variant == "past"  # every model was computed before with other parameters and another driver
 
     def go():
         if mode == "A":
-            fwd = dsm_impl.run_stock("inflow", grid, lt, quad, extra, shapes, d, pass_arrays=pass_arrays)
-            back = {s: dsm_impl.run_stock("stock-" + s, grid, lt, quad, extra, shapes, fwd["stock"], pass_arrays=pass_arrays) for s in ("manual", "lapack")}
+            fwd = dsm_impl.run_stock("inflow", grid, lt, quad, extra, shapes, d, pass_arrays=pass_arrays, recompute=past)
+            back = {s: dsm_impl.run_stock("stock-" + s, grid, lt, quad, extra, shapes, fwd["stock"], pass_arrays=pass_arrays, recompute=past) for s in ("manual", "lapack")}
             return fwd, back
-        back = {s: dsm_impl.run_stock("stock-" + s, grid, lt, quad, extra, shapes, d, int_dtype=int_dtype, pass_arrays=pass_arrays) for s in ("manual", "lapack")}
-        fwd = {s: dsm_impl.run_stock("inflow", grid, lt, quad, extra, shapes, back[s]["inflow"]) for s in ("manual", "lapack")}
+        back = {s: dsm_impl.run_stock("stock-" + s, grid, lt, quad, extra, shapes, d, int_dtype=int_dtype, pass_arrays=pass_arrays, recompute=past) for s in ("manual", "lapack")}
+        fwd = {s: dsm_impl.run_stock("inflow", grid, lt, quad, extra, shapes, back[s]["inflow"], recompute=past) for s in ("manual", "lapack")}
         return fwd, back
 
     st, r = attempt(go)
@@ -143,7 +155,7 @@ def run_unit(u):
                 jobs = [("A", drv, "plain") for drv in DRV_A + imps]
                 jobs += [("B", drv, "plain") for drv in DRV_B + imps]
                 if qi in (0, 1):
-                    jobs += [("B", drv, "int") for drv in ("inc", "dec", "hump")] + [("A", "pos", "arrays"), ("B", "dec", "arrays")]
+                    jobs += [("B", drv, "int") for drv in ("inc", "dec", "hump")] + [("A", "pos", "arrays"), ("B", "dec", "arrays"), ("A", "pos2", "past"), ("B", "hump", "past")]
                 for mode, drv, variant in jobs:
                     oc, f = run_case(mode, grid, li, quad, ei, pair, drv, variant)
                     res["evals"] += 1
